@@ -119,6 +119,11 @@ type world struct {
 	rdCount    int
 	closeCount int
 
+	// transport faults: a single scripted read error is an inbox entry with a nil message; "broken" makes every read fail
+	broken     bool
+	brokenIter int
+	quietConnErr int // connection_error messages not logged (beyond the logged iterations of a broken transport)
+
 	// mode "v2": data messages of the real executor carry no harness marker; the wrapper executor announces
 	// (incarnation, number) of the data message the engine is about to write for an id
 	v2     bool
@@ -172,7 +177,9 @@ type wireMsg struct {
 
 // outEvent turns a message written by the server into a log event. caller holds w.mu.
 func (w *world) outEvent(b []byte) Event {
-	w.wire = append(w.wire, string(b))
+	if len(w.wire) < 200 {
+		w.wire = append(w.wire, string(b))
+	}
 	var m wireMsg
 	if err := json.Unmarshal(b, &m); err != nil {
 		return Event{Ev: "out", A: "unparsable"}
@@ -228,6 +235,27 @@ func closeCodeOf(reason any) int {
 	return -2
 }
 
+// ---------------------------------------------------------------------------------------------- transport faults
+
+var errTransport = errors.New("verif: frame error: reserved bits set")
+
+const brokenLogged = 6 // iterations of a broken transport that are logged in full
+
+// brokenRead is one failing read of a transport that is broken for good (caller holds w.mu). The reads are paced
+// (2ms) so that the number of iterations within the server's read-error time-out is bounded.
+func (w *world) brokenRead() error {
+	w.brokenIter++
+	if w.brokenIter <= brokenLogged {
+		w.rdCount++
+		w.log(Event{Ev: "rd"})
+		w.log(Event{Ev: "in", A: "readerr"})
+	}
+	w.mu.Unlock()
+	time.Sleep(2 * time.Millisecond)
+	w.mu.Lock()
+	return errTransport
+}
+
 // ---------------------------------------------------------------------------------------------- mode "tc": scripted TransportClient
 
 type tcClient struct{ w *world }
@@ -239,20 +267,32 @@ func (c *tcClient) ReadBytesFromClient() ([]byte, error) {
 	if w.closed {
 		return nil, subscription.ErrTransportClientClosedConnection
 	}
+	if w.broken {
+		return nil, w.brokenRead()
+	}
 	w.atRead = true
 	w.rdCount++
 	w.log(Event{Ev: "rd"})
-	for len(w.inbox) == 0 && !w.closed {
+	for len(w.inbox) == 0 && !w.closed && !w.broken {
 		w.cond.Wait()
 	}
 	w.atRead = false
 	if len(w.inbox) == 0 {
+		if w.broken && !w.closed {
+			w.brokenIter++
+			w.log(Event{Ev: "in", A: "readerr"})
+			return nil, errTransport
+		}
 		return nil, subscription.ErrTransportClientClosedConnection
 	}
 	msg := w.inbox[0]
 	w.inbox = w.inbox[1:]
-	w.log(w.inboxEv[0])
+	ev := w.inboxEv[0]
+	w.log(ev)
 	w.inboxEv = w.inboxEv[1:]
+	if ev.A == "readerr" {
+		return nil, errTransport
+	}
 	return msg, nil
 }
 
@@ -265,6 +305,10 @@ func (c *tcClient) WriteBytesToClient(b []byte) error {
 		return subscription.ErrTransportClientClosedConnection
 	}
 	e := w.outEvent(b)
+	if w.broken && w.brokenIter > brokenLogged && e.A == "connection_error" {
+		w.quietConnErr++
+		return nil
+	}
 	w.log(e)
 	if w.holdArmed && (e.A == "complete" || e.A == "error") && e.ID == w.holdID {
 		// the message is on the wire (the client can react to it), the writer just has not got the call back yet
@@ -336,11 +380,14 @@ func (c *fakeConn) Read(p []byte) (int, error) {
 		if w.closed {
 			return 0, io.EOF
 		}
+		if w.broken {
+			return 0, w.brokenRead()
+		}
 		// message boundary: the server waits for the next client frame
 		w.atRead = true
 		w.rdCount++
 		w.log(Event{Ev: "rd"})
-		for len(w.inbox) == 0 && !w.closed && !c.local {
+		for len(w.inbox) == 0 && !w.closed && !c.local && !w.broken {
 			w.cond.Wait()
 		}
 		w.atRead = false
@@ -348,12 +395,22 @@ func (c *fakeConn) Read(p []byte) (int, error) {
 			if c.local {
 				return 0, io.ErrClosedPipe
 			}
+			if w.broken && !w.closed {
+				w.brokenIter++
+				w.log(Event{Ev: "in", A: "readerr"})
+				return 0, errTransport
+			}
 			return 0, io.EOF
 		}
 		c.rbuf = w.inbox[0]
 		w.inbox = w.inbox[1:]
-		w.log(w.inboxEv[0])
+		ev := w.inboxEv[0]
+		w.log(ev)
 		w.inboxEv = w.inboxEv[1:]
+		if ev.A == "readerr" {
+			c.rbuf = nil
+			return 0, errTransport
+		}
 	}
 	n := copy(p, c.rbuf)
 	c.rbuf = c.rbuf[n:]
@@ -392,6 +449,10 @@ func (c *fakeConn) Write(p []byte) (int, error) {
 			}
 		case ws.OpText, ws.OpBinary:
 			e := w.outEvent(f.Payload)
+			if w.broken && w.brokenIter > brokenLogged && e.A == "connection_error" {
+				w.quietConnErr++
+				continue
+			}
 			if w.srvClosed {
 				e.Ev = "out" // a data frame after the close frame: recorded, the acceptor rejects it
 			}
@@ -778,6 +839,28 @@ func wireOf(proto string, s Step) ([]byte, bool) {
 			return []byte(`{"type":"connection_init","payload":{"Authorization":"x"}}`), false
 		}
 		return []byte(`{"type":"connection_init"}`), false
+	case "initrej": // the harness InitFunc refuses this payload: v even -> it returns (nil, err), v odd -> (ctx, err)
+		if s.V%2 == 1 {
+			return []byte(`{"type":"connection_init","payload":{"reject":"ctx"}}`), false
+		}
+		return []byte(`{"type":"connection_init","payload":{"reject":"nil"}}`), false
+	case "subbad": // subscribe/start for id 1 whose payload cannot be deserialized
+		pl := ""
+		switch s.V % 6 {
+		case 1:
+			pl = `,"payload":"query Q { hello }"`
+		case 2:
+			pl = `,"payload":[1,2]`
+		case 3:
+			pl = fmt.Sprintf(`,"payload":{"query":{"a":1},"variables":%s}`, vars("1"))
+		case 4:
+			pl = `,"payload":5`
+		case 5:
+			pl = fmt.Sprintf(`,"payload":{"query":["query Q { hello }"],"variables":%s}`, vars("1"))
+		}
+		return []byte(fmt.Sprintf(`{"id":"1","type":%q%s}`, sub, pl)), false
+	case "readerr":
+		return nil, false
 	case "ping":
 		if s.V%2 == 1 {
 			return []byte(`{"type":"ping","payload":{"x":1}}`), false
@@ -851,6 +934,17 @@ func clientFrame(msg []byte, binary bool) []byte {
 
 // ---------------------------------------------------------------------------------------------- driver
 
+type initKey struct{}
+
+func hasStep(c Case, t, sym string) bool {
+	for _, s := range c.Steps {
+		if s.T == t && (sym == "" || s.Sym == sym) {
+			return true
+		}
+	}
+	return false
+}
+
 func hasTimeout(c Case) bool {
 	for _, s := range c.Steps {
 		if s.T == "timeout" {
@@ -875,6 +969,23 @@ func runCase(c Case) ([]Event, Result) {
 	}
 	if hasTimeout(c) {
 		opts.CustomConnectionInitTimeOut = 400 * time.Millisecond
+	}
+	if hasStep(c, "broken", "") {
+		opts.CustomReadErrorTimeOut = 150 * time.Millisecond
+	}
+	// an InitFunc is always configured; it is consulted for every connection_init that carries a payload
+	opts.WebSocketInitFunc = func(ctx context.Context, p websocket.InitPayload) (context.Context, error) {
+		switch p.GetString("reject") {
+		case "nil":
+			return nil, errors.New("verif: init refused")
+		case "ctx":
+			return ctx, errors.New("verif: init refused")
+		}
+		return context.WithValue(ctx, initKey{}, p.Authorization()), nil
+	}
+	if c.Proto == "gws" && hasStep(c, "in", "initrej") {
+		// a refused init must not start the keep-alive: make a stray `ka` observable
+		opts.CustomKeepAliveInterval = 3 * time.Millisecond
 	}
 	var conn net.Conn
 	fc := &fakeConn{w: w}
@@ -928,7 +1039,7 @@ func runCase(c Case) ([]Event, Result) {
 			return false
 		}
 		msg, bin := wireOf(c.Proto, s)
-		if c.Mode == "conn" {
+		if c.Mode == "conn" && s.Sym != "readerr" {
 			msg = clientFrame(msg, bin)
 		}
 		rd := w.rdCount
@@ -987,6 +1098,24 @@ func runCase(c Case) ([]Event, Result) {
 		switch s.T {
 		case "in":
 			ok = deliver(s)
+			if ok && s.Sym == "initrej" && c.Proto == "gws" {
+				time.Sleep(15 * time.Millisecond) // several keep-alive intervals
+			}
+		case "broken":
+			w.mu.Lock()
+			ok = !w.closed && !w.exited && w.atRead
+			if ok {
+				w.broken = true
+				w.log(Event{Ev: "broken"})
+				w.cond.Broadcast()
+			}
+			w.mu.Unlock()
+			if ok && !w.waitFor(3*time.Second, func() bool { return w.exited }) {
+				res.Wedged = append(res.Wedged, "broken")
+				w.mu.Lock()
+				w.log(Event{Ev: "wedge", A: "broken", N: w.brokenIter})
+				w.mu.Unlock()
+			}
 		case "eng":
 			ok = engine(s)
 		case "release":
@@ -1050,7 +1179,9 @@ func runCase(c Case) ([]Event, Result) {
 	w.mu.Lock()
 	if !w.closed {
 		w.closed = true
-		w.log(Event{Ev: "eof"})
+		if !w.exited && len(res.Wedged) == 0 {
+			w.log(Event{Ev: "eof"})
+		}
 	}
 	w.cond.Broadcast()
 	w.mu.Unlock()
